@@ -51,6 +51,9 @@ func verifyFunc(P *Program, C *Contracts, fc *FuncContract) *Unit {
 	cover := u.oblige(u.Name+"#requires-sat", "cover", "the precondition is satisfiable", "true", nil)
 	cover.ExpectSat = true
 	cover.Vars = vars
+	if fc.HasMod && !fc.ModAll {
+		fr.allow = u.computeAllowed(fr, fc, fn, args, st)
+	}
 	fr.run("true", st, args)
 	fr.checkLatches()
 	// postconditions at every return
@@ -61,6 +64,14 @@ func verifyFunc(P *Program, C *Contracts, fc *FuncContract) *Unit {
 	for _, r := range fr.rets {
 		reachAny = append(reachAny, r.reach)
 	}
+	// merged result terms, for counterexample projection and replay
+	rinfo := u.replayInfo(fr, fn, args, vars)
+	for _, o := range u.obls {
+		if o.Kind == "panic" && rinfo != nil {
+			o.Vars = vars
+			o.RInfo = rinfo
+		}
+	}
 	for k, en := range fc.Ensures {
 		var parts []string
 		for _, r := range fr.rets {
@@ -69,6 +80,7 @@ func verifyFunc(P *Program, C *Contracts, fc *FuncContract) *Unit {
 		}
 		o := u.oblige(fmt.Sprintf("%s#ensures:%s", u.Name, clauseID(en, k)), "ensures", "postcondition: "+en.Text, and(parts...), en)
 		o.Vars = vars
+		o.RInfo = rinfo
 	}
 	if fc.HasMod && !fc.ModAll {
 		u.frameObligation(fr, fc, fn, args, st)
@@ -110,10 +122,8 @@ func (u *Unit) pkgTypes(path string) *types.Package {
 	return nil
 }
 
-// frameObligation: every heap component is unchanged outside the declared modifies set, for
-// references that existed at entry.
-func (u *Unit) frameObligation(fr *Frame, fc *FuncContract, fn *ssa.Function, args []*Val, st0 *State) {
-	// collect allowed locations per component
+// computeAllowed evaluates the modifies clause in the entry state: per component, the cells that may change.
+func (u *Unit) computeAllowed(fr *Frame, fc *FuncContract, fn *ssa.Function, args []*Val, st0 *State) map[string]*allowedSet {
 	allow := map[string]*allowedSet{}
 	get := func(c string) *allowedSet {
 		if allow[c] == nil {
@@ -152,6 +162,36 @@ func (u *Unit) frameObligation(fr *Frame, fc *FuncContract, fn *ssa.Function, ar
 			u.allowPlace(pl, get)
 		}
 	}
+	return allow
+}
+
+// frameFormula: component c is unchanged between terms ini and fin outside the allowed cells, for
+// references that existed at function entry.
+func frameFormula(c, fin, ini string, a *allowedSet) string {
+	if fin == ini {
+		return "true"
+	}
+	var ex []string
+	if a != nil {
+		for _, ref := range a.refs {
+			ex = append(ex, not(eq("q!r", ref)))
+		}
+	}
+	guard := and(append([]string{"(< q!r WM@0)", "(>= q!r 0)"}, ex...)...)
+	if strings.HasPrefix(c, "E_") && a != nil && len(a.elems) > 0 {
+		var exe []string
+		for _, e := range a.elems {
+			exe = append(exe, not(and(eq("q!r", e[0]), eq("q!j", e[1]))))
+		}
+		return fmt.Sprintf("(forall ((q!r Int) (q!j Int)) (! (=> %s (= (select (select %s q!r) q!j) (select (select %s q!r) q!j))) :pattern ((select (select %s q!r) q!j))))", and(guard, and(exe...)), fin, ini, fin)
+	}
+	return fmt.Sprintf("(forall ((q!r Int)) (! (=> %s (= (select %s q!r) (select %s q!r))) :pattern ((select %s q!r))))", guard, fin, ini, fin)
+}
+
+// frameObligation: every heap component is unchanged outside the declared modifies set, for
+// references that existed at entry.
+func (u *Unit) frameObligation(fr *Frame, fc *FuncContract, fn *ssa.Function, args []*Val, st0 *State) {
+	allow := fr.allow
 	var comps []string
 	for c := range u.compSort {
 		if c == "WM" || strings.HasPrefix(c, "VIS_") {
@@ -165,29 +205,7 @@ func (u *Unit) frameObligation(fr *Frame, fc *FuncContract, fn *ssa.Function, ar
 		var cs []string
 		for _, c := range comps {
 			so := u.compSort[c]
-			fin := u.comp(r.st, c, so)
-			ini := c + "@0"
-			if fin == ini {
-				continue
-			}
-			a := allow[c]
-			var ex []string
-			if a != nil {
-				for _, ref := range a.refs {
-					ex = append(ex, not(eq("q!r", ref)))
-				}
-			}
-			guard := and(append([]string{"(< q!r WM@0)", "(>= q!r 0)"}, ex...)...)
-			if strings.HasPrefix(c, "E_") && a != nil && len(a.elems) > 0 {
-				// element-wise exceptions
-				var exe []string
-				for _, e := range a.elems {
-					exe = append(exe, not(and(eq("q!r", e[0]), eq("q!j", e[1]))))
-				}
-				cs = append(cs, fmt.Sprintf("(forall ((q!r Int) (q!j Int)) (=> %s (= (select (select %s q!r) q!j) (select (select %s q!r) q!j))))", and(guard, and(exe...)), fin, ini))
-				continue
-			}
-			cs = append(cs, fmt.Sprintf("(forall ((q!r Int)) (=> %s (= (select %s q!r) (select %s q!r))))", guard, fin, ini))
+			cs = append(cs, frameFormula(c, u.comp(r.st, c, so), c+"@0", allow[c]))
 		}
 		parts = append(parts, implies(r.reach, and(cs...)))
 	}
@@ -219,4 +237,38 @@ func (u *Unit) allowPlace(pl *Place, get func(string) *allowedSet) {
 		cn, _ := u.ptrComp(pl.BaseT)
 		get(cn).refs = append(get(cn).refs, pl.Base)
 	}
+}
+
+// replayInfo declares one merged term per result and describes how to call the function, when the
+// function is a plain function over scalars.
+func (u *Unit) replayInfo(fr *Frame, fn *ssa.Function, args []*Val, vars map[string]string) *ReplayInfo {
+	if fn.Signature.Recv() != nil || fn.Parent() != nil || fn.Pkg == nil || fn.TypeParams().Len() > 0 || len(fn.TypeArgs()) > 0 {
+		return nil
+	}
+	ri := &ReplayInfo{PkgPath: fn.Pkg.Pkg.Path(), Func: fn.Name()}
+	q := func(p *types.Package) string { return "" }
+	for i, p := range fn.Params {
+		k := basicKind(p.Type())
+		if k == "" {
+			return nil
+		}
+		ri.Params = append(ri.Params, replayVar{Name: p.Name(), Type: types.TypeString(p.Type(), q), Term: args[i].S, Kind: k})
+	}
+	res := fn.Signature.Results()
+	for i := 0; i < res.Len(); i++ {
+		k := basicKind(res.At(i).Type())
+		if k == "" {
+			return nil
+		}
+		name := fmt.Sprintf("|$ret%d|", i)
+		u.S.declare(name, u.S.sortOf(res.At(i).Type()))
+		for _, r := range fr.rets {
+			if i < len(r.results) {
+				u.assert(implies(r.reach, eq(name, r.results[i].S)))
+			}
+		}
+		vars[fmt.Sprintf("$ret%d", i)] = name
+		ri.Results = append(ri.Results, replayVar{Name: fmt.Sprintf("ret%d", i), Type: types.TypeString(res.At(i).Type(), q), Term: name, Kind: k})
+	}
+	return ri
 }
